@@ -1141,6 +1141,12 @@ def _parse_cached(
         logger.debug(f"Model with hash '{txt_hash}' ({pymoca_version}) found in cache")
         last_hit, pickled_data = result
 
+        if not isinstance(last_hit, int) or not isinstance(pickled_data, bytes):
+            # The columns do not hold what we store in them: the table layout
+            # was changed after this process checked it.
+            conn.close()
+            raise sqlite3.DatabaseError("Unexpected column types in model text cache")
+
         yesterday = _microseconds_since_epoch(timedelta(days=-1))
 
         if always_update_last_hit or last_hit < yesterday:
